@@ -239,8 +239,51 @@ pub fn case_strategy() -> BoxedStrategy<RangeCase> {
         .boxed()
 }
 
+/// Small scope: one block whose first content line breaks its line-pattern, under every suffix x comment form x
+/// indentation x comment shape (one line / tag after a line break / text after the tag on a later line) x code
+/// before the comment x code or text after it on the closing line (where the form allows it) x Markdown
+/// container: the designated key sits on the very first content line, whose column depends on where the
+/// start tag's comment ends.
+pub fn first_line_cases() -> Vec<RangeCase> {
+    let mut out = vec![];
+    for (si, (_, lid)) in SUFFIXES.iter().enumerate() {
+        let lang = langs::lang(lid);
+        let nforms = builder::forms(lang).len();
+        for f in 0..nforms {
+            let form = builder::forms(lang)[f];
+            let containers: &[u8] = if lang.markdown { &[0, 1, 2, 3, 4] } else { &[0] };
+            let docs: &[bool] = if matches!(form, builder::Form::Block | builder::Form::MdRef(_)) { &[false, true] } else { &[false] };
+            for &indent in &[0u8, 2, 5] {
+                for shape in 0..4u8 {
+                    for &lead in &[false, true] {
+                        for &container in containers {
+                            for &doc in docs {
+                                if container != 0 && (indent != 0 || (shape != 0 && !(form == builder::Form::MdHtml && matches!(container, 2 | 3)))) {
+                                    continue; // inside containers: HTML comments of any shape, definitions on one line
+                                }
+                                let place = builder::Place { form: f as u8, trail: true, lead, nl_before: shape & 1 != 0, nl_after: shape & 2 != 0, post: if shape & 2 != 0 { 1 } else { 0 }, indent, doc, container, ..Default::default() };
+                                let events = vec![
+                                    Ev::Code(1),
+                                    Ev::Open { tag: StartTag { attrs: vec![Attr::simple("name", "first")], ws_end: String::new() }, place },
+                                    Ev::Code(2),
+                                    Ev::Code(3),
+                                    Ev::Close { spelling: 0, place: builder::Place { form: f as u8, ..Default::default() } },
+                                    Ev::Code(4),
+                                ];
+                                out.push(RangeCase { suffix: si, events, crlf: (si + f + shape as usize) % 5 == 0, rules: vec![3], diff_mode: false });
+                            }
+                        }
+                    }
+                }
+            }
+        }
+    }
+    out
+}
+
 pub fn run(run: &mut Run) {
-    run.rule = "random: a generated source file of any of the 39 suffixes (every comment layout of the builder: own-line and trailing line comments, block comments with code before/after, tag on a later line of a multi-line comment, comments continuing after the tag, multi-line tags, several tags per comment, Markdown/HTML forms, indentation, CRLF) whose blocks each carry one rule from {keep-sorted asc/desc, keep-unique, line-pattern, keep-sorted with a numeric regex key in the middle of a line after multi-byte text, keep-unique with a regex, line-count, check-lua, affects (diff mode), check-ai (fake endpoint)}; content is whatever the file holds between the comments (code lines, key lines, nested tag comments, noise). Expected: key rules -> the key computed by the C06–C08 reference models on the constructed content, located by absolute offset; tag rules -> the constructed start tag from `<` to `>`. Every reported range is sliced out of the file's bytes and compared (text and numbers). Non-trivial = the tag is not on the last line of its comment / sits on a later line / is multi-line, or the key is on the tag's or end tag's line, preceded by multi-byte text, or after a comment form that swallows its line terminator.".into();
+    run.rule = "enumerated first-line: under every suffix x comment form x indentation {0,2,5} x comment shape (one line, tag after a line break, text after the tag on a later line, both) x code before the comment x code / text after it on its closing line x Markdown container, one block whose first content line breaks its line-pattern (the key's column depends on where the start tag's comment ends). random: a generated source file of any of the 39 suffixes (every comment layout of the builder: own-line and trailing line comments, block comments with code before/after, tag on a later line of a multi-line comment, comments continuing after the tag, multi-line tags, several tags per comment, Markdown/HTML forms, indentation, CRLF) whose blocks each carry one rule from {keep-sorted asc/desc, keep-unique, line-pattern, keep-sorted with a numeric regex key in the middle of a line after multi-byte text, keep-unique with a regex, line-count, check-lua, affects (diff mode), check-ai (fake endpoint)}; content is whatever the file holds between the comments (code lines, key lines, nested tag comments, noise). Expected: key rules -> the key computed by the C06–C08 reference models on the constructed content, located by absolute offset; tag rules -> the constructed start tag from `<` to `>`. Every reported range is sliced out of the file's bytes and compared (text and numbers). Non-trivial = the tag is not on the last line of its comment / sits on a later line / is multi-line, or the key is on the tag's or end tag's line, preceded by multi-byte text, or after a comment form that swallows its line terminator.".into();
     run.assumptions = vec!["grammar-rejected sources are discarded; regex keys come from the fixed family with hand-written extractors".into()];
+    run.enumerate("first-line", first_line_cases(), Some("one line-pattern block per suffix x comment form x indentation x comment shape x code before / after the comment x Markdown container"), check);
     run.random("ranges", run.tier.pick(2500, 60000), case_strategy, check);
 }
